@@ -73,6 +73,9 @@ type Case struct {
 	// OutsideRO: everything in the outside region O is read-only for its owner (files 0444, directories 0555): a call that
 	// makes what it is about to remove writable must not do so to what a link points at
 	OutsideRO bool `json:"outside_read_only,omitempty"`
+	// FewDescriptors: while the call runs the process may open only a dozen more files than it has open already (a deep tree
+	// must not need a descriptor per level)
+	FewDescriptors bool `json:"few_descriptors,omitempty"`
 	Op       string `json:"op"`
 	Protect  int    `json:"protect,omitempty"` // exclusion pattern = name of entry i (>0) or of link -i (<0); 0 = no pattern
 }
@@ -83,7 +86,7 @@ func (c *Case) entryRel(i int) string {
 	if i == 0 {
 		return "T"
 	}
-	return c.entryRel(c.Parents[i-1]) + "/" + string(entryNames[i-1])
+	return c.entryRel(c.Parents[i-1]) + "/" + string(entryNames[(i-1)%len(entryNames)]) // (names repeat along a deep chain)
 }
 
 func (c *Case) linkRel(j int) string { // j = 0-based link index
@@ -151,6 +154,9 @@ func (c *Case) String() string {
 	}
 	if c.OutsideRO {
 		s += " outside-read-only"
+	}
+	if c.FewDescriptors {
+		s += " few-descriptors"
 	}
 	s += " op=" + c.Op
 	if c.Protect != 0 {
